@@ -791,7 +791,12 @@ impl Builtins {
                     }
                     elems.push(Rc::new(P(Int(num))));
                     pos_list.push(pos.clone());
-                    num += step;
+                    // A range that ends near the largest integer must stop
+                    // instead of overflowing.
+                    num = match num.checked_add(step) {
+                        Some(next) => next,
+                        None => break,
+                    };
                 }
             }
             _ => {
